@@ -16,7 +16,7 @@ PROPS = {
                    "pinned_moved_from_aliases", "repaired_same_histories"),
         rule="histories over a pool of 3 string_streams in raw storage, snapshot (size(), bytes or FNV digest of raw_buffer()[0,size()), "
              "storage location S/H<n>/A<id>) of every live stream after every step, to_string() results, exact operator-new accounting + LSan at the end: "
-             "(land) cumulative sizes 255,256,257,511,512,513,1023,1024,1025 reached by 1..4 appends of every form (append(ptr,n), append(cstr), append_char) "
+             "(degenerate) null pointers, zero sizes/counts, truncate()/erase(0) in both storage modes; (land) cumulative sizes 255,256,257,511,512,513,1023,1024,1025 reached by 1..4 appends of every form (append(ptr,n), append(cstr), append_char) "
              "x 6 kinds of follow-up; (big) single appends of 300/1000/5000/70000 onto sizes 0,1,255,256,257,600; (shl) every operator<< overload "
              "(17 text overloads x 8 payload classes incl. null pointers, malformed wide text that must throw, interior NUL, 300 scalars; 8 numeric "
              "overloads with the C library's rendering as expectation; all char values) x 4 storage states; (truncate/erase) 11 sizes x 10 targets x 3 "
